@@ -905,6 +905,37 @@ def _sort_case(rng):
     return {'_k': 'h', 'fts': fts, 'ops': ops}
 
 
+def _mirror_pair_case(rng):
+    """lists in which one feature EQUALS the mirror image of another one (same type, same metadata, same location tags):
+    the two arms of an inverted repeat on opposite strands, a '.'-strand pair placed symmetrically about L/2, and
+    equal-but-distinct duplicates. FeatureList.rc must mirror every entry exactly once, whatever it is equal to."""
+    L = rng.choice([10, 10, 13, 0, 20, rng.randint(-3, 30), 2 ** 40 + 6])
+    base = 0 if L < 40 else L - 20
+    s = rng.choice('++-.?')
+    fm = rng.choice([40, 41, 42])
+    n = rng.choice([1, 1, 2, 3])
+    A = []
+    for _ in range(n):
+        a = base + rng.randint(0, 9)
+        A.append([a, a + rng.randint(1, 5), s, rng.choice([0, 0, 1, 4, 6, 21]), rng.choice([0, 1, 2])])
+    B = [[L - y, L - x, {'+': '-', '-': '+'}.get(st, st), _mirror_defect(d), m] for x, y, st, d, m in A]
+    fts = [{'locs': A, 'm': fm, 'kw': False, 'share': None}, {'locs': B, 'm': fm, 'kw': False, 'share': None}]
+    r = rng.random()
+    if r < 0.3:
+        fts.append({'locs': [list(x) for x in A], 'm': fm, 'kw': False, 'share': None})            # equal but distinct duplicate
+    elif r < 0.5:
+        fts.insert(rng.randrange(3), {'locs': _rand_locs(rng, lambda: base + rng.randint(0, 9)), 'm': fm, 'kw': False, 'share': None})
+    if rng.random() < 0.3:
+        rng.shuffle(fts)
+    if rng.random() < 0.4:
+        return {'_k': 'rr', 'fts': fts, 'L': L}
+    ops = [['rc', L]]
+    if rng.random() < 0.6:
+        ops.append(rng.choice([['rc', L], ['ftrc', rng.randrange(len(fts)), L], ['qcmp', 0, 1], ['sort', False]]))
+        ops.append(['rc', L])
+    return {'_k': 'h', 'fts': fts, 'ops': ops}
+
+
 def gen_cases(rng, tier):
     cases = []
     thorough = tier == 'thorough'
@@ -955,6 +986,9 @@ def gen_cases(rng, tier):
             if v == 2:
                 locs = [r[:4] + [0] for r in locs]
             cases.append({'_k': 'api', 'v': v, 't': locs})
+    # list-level mirroring of lists that contain mirror-image pairs / equal duplicates
+    for _ in range(2000 if thorough else 250):
+        cases.append(_mirror_pair_case(rng))
     # default ordering of features (FeatureList.sort / sorted) against the order of the covered ranges
     for _ in range(2500 if thorough else 300):
         cases.append(_sort_case(rng))
